@@ -36,6 +36,7 @@ import (
 	"os"
 	"path/filepath"
 	"reflect"
+	"runtime"
 	"sort"
 	"strconv"
 	"strings"
@@ -427,36 +428,55 @@ func curveList(ids []tls.CurveID) []string {
 	return out
 }
 
-// the default suite order is the documented one for the CPU the check runs on (config.go:
-// "List of ciphers we should prefer if native AESNI support is missing")
-func defaultCipherOrder(model []string) []string {
-	if hasAESNI() {
-		return model
+// The default suite list has two documented orders (config.go: defaultCiphers, and defaultCiphersNonAESNI =
+// "List of ciphers we should prefer if native AESNI support is missing"). Which one applies is read from the
+// kernel's CPU flags (the harness module must not grow a direct dependency on the cpuid package casket uses);
+// where that cannot be told (no x86, no /proc/cpuinfo) either documented order is accepted.
+var nonAESNIOrder = []string{"ECHA", "RCHA", "EA256G", "RA256G", "EA128G", "RA128G"}
+
+var aesni = sync.OnceValue(func() string { // "yes" | "no" | "unknown"
+	if runtime.GOARCH != "amd64" && runtime.GOARCH != "386" {
+		return "unknown"
 	}
+	b, err := os.ReadFile("/proc/cpuinfo")
+	if err != nil {
+		return "unknown"
+	}
+	for _, ln := range strings.Split(string(b), "\n") {
+		if strings.HasPrefix(ln, "flags") {
+			if strings.Contains(ln+" ", " aes ") {
+				return "yes"
+			}
+			return "no"
+		}
+	}
+	return "unknown"
+})
+
+func withDefaultOrder(model []string, order []string) []string {
 	out := []string{}
 	for _, s := range model {
 		if s == "SCSV" {
 			out = append(out, s)
 		}
 	}
-	out = append(out, "ECHA", "RCHA", "EA256G", "RA256G", "EA128G", "RA128G")
-	return out
+	return append(out, order...)
 }
 
-// hasAESNI reads the CPU flags the way the kernel reports them (the harness module must not grow
-// a direct dependency on the cpuid package casket uses).
-var hasAESNI = sync.OnceValue(func() bool {
-	b, err := os.ReadFile("/proc/cpuinfo")
-	if err != nil {
-		return true
+// defaultCipherOrder returns the expected default list; observed is consulted only when the CPU cannot be told.
+func defaultCipherOrder(model, observed []string) []string {
+	alt := withDefaultOrder(model, nonAESNIOrder)
+	switch aesni() {
+	case "yes":
+		return model
+	case "no":
+		return alt
 	}
-	for _, ln := range strings.Split(string(b), "\n") {
-		if strings.HasPrefix(ln, "flags") {
-			return strings.Contains(ln+" ", " aes ")
-		}
+	if reflect.DeepEqual(observed, alt) {
+		return alt
 	}
-	return true
-})
+	return model
+}
 
 func nz(s []string) []string {
 	if s == nil {
@@ -675,7 +695,7 @@ func compareConfig(c *tcase, o observation) (fs []finding) {
 	// *tls.Config
 	want := *c.TLS
 	if c.CDef {
-		want.Ciphers = defaultCipherOrder(want.Ciphers)
+		want.Ciphers = defaultCipherOrder(want.Ciphers, o.TLS.Ciphers)
 	}
 	want.CAs = sortedCopy(want.CAs)
 	tf := func(name string, w, h interface{}) {
@@ -724,7 +744,7 @@ func compareConfig(c *tcase, o observation) (fs []finding) {
 		cf("ProtocolMaxVersion", w.PMax, h.PMax)
 		wc := nz(w.Ciphers)
 		if c.CDef {
-			wc = defaultCipherOrder(wc)
+			wc = defaultCipherOrder(wc, h.Ciphers)
 		}
 		cf("Ciphers", wc, h.Ciphers)
 		cf("CurvePreferences", nz(w.Curves), h.Curves)
@@ -1184,7 +1204,7 @@ func TestCx06TLSDir(t *testing.T) {
 			}
 		}
 		rnd.Shuffle(len(cand), func(a, b int) { cand[a], cand[b] = cand[b], cand[a] })
-		budget := 160
+		budget := 340
 		if hx.Thorough() {
 			budget = 2500
 		}
